@@ -71,7 +71,18 @@ def run(res, tier):
     def gids(n):
         p = P.pos_of(f, n)
         return set(flow._transfer(p[0], flow.IN[p[0]], upto=p[1]))
-    same = all(bool(gids(add[0]) & gids(fd)) and C.dominates(f, add[0]['i'], fd['i']) and any(x.get('q') == MSGS for x in fd.walk()) for fd in firsts)
+    def reads_queue_under_lock(fd, depth=0):
+        # the definition reads the queue itself, or a local (defined once, under the same guard, after the enqueue) that does
+        if any(x.get('q') == MSGS for x in fd.walk()):
+            return bool(gids(add[0]) & gids(fd)) and C.dominates(f, add[0]['i'], fd['i'])
+        if depth < 1:
+            for x in fd.walk():
+                if x['k'] == 'DeclRefExpr' and 'd' in x and x.get('d') != flagd:
+                    dfs = [v for v in f.walk() if v['k'] == 'VarDecl' and v.get('d') == x['d'] and v['ch']]
+                    if len(dfs) == 1 and reads_queue_under_lock(dfs[0], depth + 1):
+                        return True
+        return False
+    same = all(bool(gids(add[0]) & gids(fd)) and C.dominates(f, add[0]['i'], fd['i']) and reads_queue_under_lock(fd) for fd in firsts)
     res.ob('SEND-ORDER', f.where(add[0]), 'AddTail precedes the first-Message test and both run under one guard on the queue lock', same, function=f.q,
            how='AddTail line %s, test line %s, guard %s' % (add[0].get('l'), firsts[0].get('l'), sorted(gids(add[0]))), key='SEND-ORDER|%s|under-lock' % f.q,
            message='SendMessageAux decides whether to signal outside the critical section of the enqueue (or before it): two senders can both see a non-empty queue and nobody signals (lost wake-up)')
